@@ -233,8 +233,8 @@ def run(ctx):
 
     camp = navlib.Campaign(ctx, exe, judge, METHODS, "c13")
     thorough = ctx.thorough()
-    valid = navlib.gen_valid_docs(ctx.rng, 4.5e8 if thorough else 6e7)
-    malformed = navlib.gen_malformed_docs(ctx.rng, 8000 if thorough else 1000, 10)
+    valid = navlib.gen_valid_docs(ctx.rng, 2.4e8 if thorough else 6e7)
+    malformed = navlib.gen_malformed_docs(ctx.rng, 5000 if thorough else 1000, 10)
     short = navlib.gen_short_docs(ctx.rng, 120 if thorough else 40)
     t0 = time.time()
     camp.run(valid + malformed + short, workers=8)
